@@ -311,6 +311,17 @@ func classify(err error, ns, typ string) (c ErrClass, problem string) {
 		if state.IsConflictError(err, state.WithResourceType(typ+"-other")) {
 			return c, fmt.Sprintf("IsConflictError(WithResourceType(other)) accepts a conflict of type %q: %v", typ, err)
 		}
+		// both qualifiers, one matching and one not (in both argument orders)
+		for _, opts := range [][]state.ErrcheckOption{
+			{state.WithResourceType(typ), state.WithResourceNamespace(ns + "-other")},
+			{state.WithResourceNamespace(ns + "-other"), state.WithResourceType(typ)},
+			{state.WithResourceType(typ + "-other"), state.WithResourceNamespace(ns)},
+			{state.WithResourceNamespace(ns), state.WithResourceType(typ + "-other")},
+		} {
+			if state.IsConflictError(err, opts...) {
+				return c, fmt.Sprintf("IsConflictError with one matching and one non-matching qualifier accepts a conflict of %s/%s: %v", ns, typ, err)
+			}
+		}
 	}
 	return c, ""
 }
